@@ -37,6 +37,7 @@ type burstCase struct {
 	Fails     int  `json:"failing_burst_requests"` // this many of the burst's first requests fail (a trial may fail concurrently with successful ones)
 	Panic     bool `json:"failures_panic"`
 	Rounds    int  `json:"rounds"`
+	Observe   bool `json:"state_read_by_observers"` // State()/Counts()/Name() are read by another goroutine throughout, and once right after every wait (a dashboard; reads are not requests)
 }
 
 type burstStats struct {
@@ -163,8 +164,24 @@ func runBoundaryBurst(t *testing.T, c burstCase, st *burstStats) string {
 		for atomic.LoadInt32(&ready) < int32(c.G) {
 			runtime.Gosched()
 		}
+		var stopObs int32
+		var owg sync.WaitGroup
+		if c.Observe {
+			owg.Add(1)
+			go func() {
+				defer owg.Done()
+				for atomic.LoadInt32(&stopObs) == 0 {
+					_ = cb.State()
+					cb.Counts()
+					_ = cb.Name()
+					runtime.Gosched()
+				}
+			}()
+		}
 		atomic.StoreInt32(&goFlag, 1)
 		wg.Wait()
+		atomic.StoreInt32(&stopObs, 1)
+		owg.Wait()
 		afterBurst := time.Now()
 		if nAdmitted+nLimited >= 2 {
 			st.concurrent++
@@ -179,6 +196,10 @@ func runBoundaryBurst(t *testing.T, c burstCase, st *burstStats) string {
 			lastFailure = afterBurst
 		}
 		sleepUntil(lastFailure.Add(timeout + time.Millisecond))
+		if c.Observe {
+			_ = cb.State() // a reader looks at the breaker after the open period is over and before any request arrives
+			cb.Counts()
+		}
 		sent, admittedSeq := 0, 0
 		for ; sent < budget; sent++ {
 			adm, _ := execOK(cb)
@@ -216,7 +237,7 @@ func TestC08BoundaryBurst(t *testing.T) {
 	const name = "breaker-boundary-burst"
 	sub := lab.Sub(name, "real threads, real time, spin barrier: breaker configured as the balancer configures it (max_requests omitted / = success_threshold / > success_threshold / huge, thresholds 1-3, timeout 1-20 ms, callback re-entering Counts) is tripped; "+
 		"2-16 goroutines with 1-3 requests each are released together -500..+200 us around the end of the open period (requests rejected as open are retried, so the burst straddles the open->half-open change); "+
-		"0, 1 or G/2 of the burst requests fail or panic, all others succeed; then nothing fails any more: after waiting more than timeout since the last failure, at most success_threshold+max_requests+4 sequential successful requests must leave the breaker CLOSED, "+
+		"0, 1 or G/2 of the burst requests fail or panic, all others succeed; in one case of three another goroutine reads State()/Counts()/Name() throughout the burst and once after every wait (reads are not requests); then nothing fails any more: after waiting more than timeout since the last failure, at most success_threshold+max_requests+4 sequential successful requests must leave the breaker CLOSED, "+
 		"and the next 3 must all be admitted; the same breaker is re-tripped for 20 rounds per case; every call under a no-progress watchdog; "+
 		"non-trivial = at least two burst requests arrived after the open period in some round; distinct = distinct cells")
 	sub.NontrivialFloor(0.8)
@@ -257,6 +278,7 @@ func TestC08BoundaryBurst(t *testing.T) {
 			c.Fails = c.G / 2
 		}
 		c.Panic = c.Fails > 0 && pick(2) == 0
+		c.Observe = pick(3) == 0
 		var st burstStats
 		v := runBoundaryBurst(t, c, &st)
 		labels := []string{fmt.Sprintf("G%d", c.G)}
@@ -276,6 +298,9 @@ func TestC08BoundaryBurst(t *testing.T) {
 		}
 		if c.Fails > 0 {
 			labels = append(labels, "failing-trials-in-burst")
+		}
+		if c.Observe {
+			labels = append(labels, "state-read-by-observers")
 		}
 		sub.Case(c, st.concurrent > 0, labels...)
 		sub.Count("rounds", st.rounds)
